@@ -26,6 +26,8 @@ func init() {
 			{ID: "C03.R5", Floor: 3, Run: c03r5, Text: "batch range consumption: every function that asserts *batchArchetypes reads both StartIndex and EndIndex; the iteration function stores StartIndex[i] into entityIndex and EndIndex[i]-derived into entityIndexMax"},
 			{ID: "C03.R6", Floor: 4, Run: c03r6, Text: "running totals: in Query methods, a loop-carried integer that starts at 0 and is advanced by additions (count in Count/EntityAt) is never overwritten with a value not derived from itself"},
 			{ID: "C03.R7", Floor: 1, Run: c03r7, Text: "no wrapping bound: in Query methods no comparison operand is an unsigned subtraction `x - c` (c > 0) unless x ≥ c is known on the path; `idx <= end-1` with end == 0 wraps and accepts every index (fixture keeps the rule non-vacuous)"},
+			{ID: "C03.R8", Floor: 4, Run: batchParallelAppends, Text: "parallel slices of a batch: the recording method appends to every per-range slice on every path (a range that is merged into its predecessor loses its source table)"},
+			{ID: "C03.R9", Floor: 1, Run: batchRowFromStart, Text: "rows of a batch table are offset by the recorded StartIndex wherever a Query method reads an entity from batchArchetypes.Archetype[j]"},
 		},
 	})
 }
